@@ -8,7 +8,7 @@ from common import lean
 from common.ctx import ROOT, stable_hash
 from common.shard import ShardResult, run_shards
 from engines import irgen
-from engines.irlib import World, execute, dump_impl, canon_model_dump, oracle, prepare, cleanup, model_apply, observe
+from engines.irlib import World, execute, dump_impl, canon_model_dump, oracle, prepare, cleanup, model_apply, observe, bundle_expect
 
 MODULES = {"C01": ["Spydr.IR.Props.C01"], "C02": ["Spydr.IR.Props.C02"], "C14": ["Spydr.IR.Props.C14", "Spydr.IR.Props.C14Names"]}
 from registry import META
@@ -28,6 +28,9 @@ def snapshot(world):
             continue
         for lab, o in objs.items():
             data["%s%d" % (kind, lab)] = sorted((k, repr(v)) for k, v in o._data.items())
+            if kind in ("port", "cable"):
+                # the stored shape flags (a refused is_scalar / is_array assignment must not leave its value behind)
+                data["%s%d" % (kind, lab)].append(("<flags>", repr((o._is_scalar, o._is_downto, o._lower_index))))
             if kind == "instance":
                 # the public flag 'is_top_instance' (a refused call must not touch it either)
                 data["%s%d" % (kind, lab)].append(("<is_top_instance>", repr(getattr(o, "is_top_instance", None))))
@@ -115,10 +118,11 @@ def run_script(ops_or_len, rng, profile, drv, res, pid, record=None, check_every
         before = snapshot(world)
         repoint_before = positional_wires(world, op)
         oprng = random.Random(stable_hash(op))
+        bexp = bundle_expect(world, op) if op["t"] == "bundleFlag" else None
         out = execute(world, op, oprng, tok)
         world.note_outer_pins()
         last = (op, out)
-        mres = model_apply(drv, op)
+        mres = model_apply(drv, op) if bexp is None else {"res": bexp, "events": [], "prims": []}
         if "error" in mres:
             raise RuntimeError("driver rejected op %r: %s" % (op, mres["error"]))
         cur = dump_impl(world)
